@@ -155,6 +155,15 @@ CHECKS.update({
             "DESIGN.md section 4, C09"),
 })
 
+CHECKS.update({
+    "C10": ("Hypothesis-generated generator programs (yield/block/block_if/multiblock op trees) with per-generator ACLs, run through the production step against a reference model",
+            "1..3 generated PartialGenerator programs with ACLs derived from what they yield, through annet.gen._old_new_per_device: "
+            "an uncovered row must fail with GeneratorError naming it, two deletable owners of one row must be reported as a conflict, "
+            "otherwise the desired config must equal the union of yielded paths in first-seen order. Exploration over programs.",
+            "Trusted: the op-tree interpreter/model in vf/props/c10.py and vf/model/refacl.py; run_partial_initial stubbed (empty device config).",
+            "DESIGN.md section 4, C10"),
+})
+
 NOT_YET = {}
 
 
